@@ -348,7 +348,10 @@ impl StreamsState {
             self.data_recvd = self
                 .data_recvd
                 .saturating_add(u64::from(final_offset) - end);
-            self.add_read_credits(u64::from(final_offset) - bytes_read)
+            // A stopped stream was already credited for everything received (`RecvStream::stop` and every later frame issue
+            // credit as they go); only the part of the stream that never arrived is still outstanding.
+            let credited = if stopped { end } else { bytes_read };
+            self.add_read_credits(u64::from(final_offset) - credited)
         } else {
             ShouldTransmit(false)
         })
